@@ -112,8 +112,12 @@ func (dec *Decoder) Decode() (*Document, error) {
 
 		node, indent, err := parseLine(line, document, family)
 		if err != nil {
+			// Only a line that is not a GEDCOM line at all can be the
+			// continuation of a value. A line that was understood but cannot
+			// be used (a husband outside of a family) is still an error.
 			if dec.AllowMultiLine && previousNode != nil &&
-				canContinueValue(previousNode) {
+				canContinueValue(previousNode) &&
+				!lineRegexp.MatchString(line) {
 				previousNode.RawSimpleNode().value += "\n" + line
 				continue
 			}
